@@ -297,6 +297,10 @@ class ValueGen:
                 n = hi
             if small and r.random() < 0.02 and hi <= 300:
                 n = hi
+            if hi <= 300 and r.random() < (0.15 if it.lenfield.offset else 0.03):
+                # the neighbourhood of the limit max(type) + offset, on both sides of max(type) - offset as well
+                k = abs(it.lenfield.offset)
+                n = r.choice([hi, hi - 1, hi - k, hi - k + 1, hi - 2 * k, hi - 2 * k + 1, hi - 2 * k - 1])
             n = max(lo, min(hi, n))
             return max(n, 1) if nonempty and hi >= 1 else n
         n = r.choice([0, 1, 2, r.randrange(4 if small else 9)])
